@@ -21,6 +21,11 @@ claimed = {
    note="Trusted: the fault-free twin run (site = mark()) defines 'everything rendered before'; failing actions are single-line. 11 class-specific known findings (position-less errors from jet's own built-in functions and numeric conversion helpers) are listed in known_findings.json and reported as KNOWN-FINDING.",
    tech="deterministic simulation: seeded program generation, failing action planted at every reached site x failure class, function faults at every dynamic call, twin-run prefix oracle, tape shrinking + replay",
    ref="DESIGN.md §6 C12"),
+ "C05": dict(engine="execsim", cat="exploration",
+   text="Seeded exploration of nests of if/else-if/else and range over every rangeable kind (typed/interface slices, pointer-to-slice, arrays, ints(a,b), single/multi-entry maps, channels, index-providing and index-less custom Rangers; empty and non-empty; 0/1/2-variable forms with := and =; nested and re-ranged), whose rendering is known by construction from the documented rules. The simulator owns the ranger pools (adversarial reuse: a nested or later range receives the ranger released last; every execution is repeated under the fresh pool and both must match the expectation), feeds channels from producer goroutines on virtual time (gaps of seconds to 12 hours, close before first receive / long after last send; a range must end once its producer closed the channel), and injects function faults inside range bodies under try, after which later ranges over the same and other subjects must still behave.",
+   note="Trusted: the ~100-line reference evaluator for if/range (conditions come from a fixed truthiness table limited to the kinds the statement lists); multi-entry map iterations are compared as multisets. Sampling only: no claim over all programs.",
+   tech="deterministic simulation: seeded program generation, simulated ranger pool, virtual-time channel producers (testing/synctest), fault injection under try, reference-model oracle, tape shrinking + replay",
+   ref="DESIGN.md §6 C05"),
 }
 
 not_applicable = {
@@ -36,7 +41,7 @@ not_applicable = {
  "C18": "single-threaded, fault-free API-vs-syntax equivalence: stateful input generation, not simulation (DESIGN.md §7)",
  "C20": "pure function of the AST (DESIGN.md §7)",
 }
-pending = {k: 'claimed in DESIGN.md §2; its check is still under construction, so nothing is asserted yet' for k in ['C02','C05','C11','C15','C16','C19']}  # id -> reason, for claimed-in-design properties whose check is not built yet
+pending = {k: 'claimed in DESIGN.md §2; its check is still under construction, so nothing is asserted yet' for k in ['C02','C11','C15','C16','C19']}  # id -> reason, for claimed-in-design properties whose check is not built yet
 
 m = {
  "version": 1,
